@@ -277,6 +277,13 @@ func (x *Exec) callFunc(fn *types.Func, recv *Value, call *ast.CallExpr, st *Sta
 			c = cv
 		}
 	}
+	if x.c != nil {
+		for _, v := range strings.Fields(x.c.Opts["variants"]) {
+			if cv := x.eng.db.C[key+"@"+v]; cv != nil {
+				c = cv
+			}
+		}
+	}
 	fi := x.eng.funcs[key]
 	if c != nil && !c.Inline {
 		return x.applyContract(c, fn, recv, args, st, call)
